@@ -483,30 +483,33 @@ structure RecvFmt where
   remoteSSRC : Option Nat := none
 deriving Repr
 
-/-- `readPacketRTP` of `clientFormat` / `serverSessionFormat` followed by `decodeRTP`. -/
-def readRTP {W WC} (ci : Cipher W WC) (r : RecvFmt) (f : Frame W) : RecvFmt × ReadRes :=
+/-- the remote SSRC after a packet has been accepted: the first accepted packet decides -/
+def latch (r : RecvFmt) (ssrc : Nat) : Option Nat :=
   match r.remoteSSRC with
-  | some s =>
-    if r.inCtx.isSome ∧ f.ssrc ≠ s then (r, .decodeError)
-    else
-      match r.inCtx, f.body with
-      | none, .plain b => (r, .deliver b)
-      | none, .prot w => (r, .deliver (ci.raw w))
-      | some _, .plain _ => (r, .decodeError)
-      | some c, .prot w =>
-        match c.decryptRTP ci f.ssrc f.seq w with
-        | none => (r, .decodeError)
-        | some (c', p) => ({ r with inCtx := some c' }, .deliver p)
-  | none =>
-    let r := { r with remoteSSRC := some f.ssrc }
+  | some s => some s
+  | none => some ssrc
+
+/-- "received packet with wrong SSRC": only when a context is present and an SSRC is already known -/
+def wrongSSRC (r : RecvFmt) (ssrc : Nat) : Bool :=
+  match r.remoteSSRC with
+  | some s => r.inCtx.isSome && ssrc != s
+  | none => false
+
+/-- `readPacketRTP` of `clientFormat` / `serverSessionFormat` with `decodeRTP`.  The remote SSRC is
+stored only after the packet has been decoded (and authenticated when a context is present): since
+the repair 568f759; before it the SSRC of the very first packet was stored unconditionally, so one
+altered first packet made the receiver discard every genuine packet that followed. -/
+def readRTP {W WC} (ci : Cipher W WC) (r : RecvFmt) (f : Frame W) : RecvFmt × ReadRes :=
+  if wrongSSRC r f.ssrc then (r, .decodeError)
+  else
     match r.inCtx, f.body with
-    | none, .plain b => (r, .deliver b)
-    | none, .prot w => (r, .deliver (ci.raw w))
+    | none, .plain b => ({ r with remoteSSRC := latch r f.ssrc }, .deliver b)
+    | none, .prot w => ({ r with remoteSSRC := latch r f.ssrc }, .deliver (ci.raw w))
     | some _, .plain _ => (r, .decodeError)
     | some c, .prot w =>
       match c.decryptRTP ci f.ssrc f.seq w with
       | none => (r, .decodeError)
-      | some (c', p) => ({ r with inCtx := some c' }, .deliver p)
+      | some (c', p) => ({ inCtx := some c', remoteSSRC := latch r f.ssrc }, .deliver p)
 
 inductive BodyC (WC : Type) where
   | plain (b : Bytes)
